@@ -201,12 +201,8 @@ func checkC14(c *C14Case) Result {
 	}
 
 	// qualified run under the gate
-	injEpoch.Add(1)
-	injReset(0, 0)
 	g := newGate(expectedGated, c.Order)
-	inj.mu.Lock()
-	inj.gate = g
-	inj.mu.Unlock()
+	injNewRun(g)
 	stop := make(chan struct{})
 	pumpDone := make(chan struct{})
 	go func() {
@@ -236,6 +232,10 @@ func checkC14(c *C14Case) Result {
 	for k, v := range inj.tagDone {
 		done[k] = v
 	}
+	argsSeen := map[string][]any{}
+	for k, v := range inj.tagArgs {
+		argsSeen[k] = append([]any{}, v...)
+	}
 	inj.mu.Unlock()
 	// let fire-and-forget SPIN calls finish before the next case
 	g.openAll()
@@ -249,9 +249,6 @@ func checkC14(c *C14Case) Result {
 	}
 	close(stop)
 	<-pumpDone
-	inj.mu.Lock()
-	inj.gate = nil
-	inj.mu.Unlock()
 	finish := g.finishOrder()
 
 	identity := true
@@ -302,7 +299,7 @@ func checkC14(c *C14Case) Result {
 		switch it.Q {
 		case "async", "spinasync":
 			if calls[it.Tag] != n || done[it.Tag] != n {
-				res.Violation = fmt.Sprintf("%s\n  when Exec returned, the %s call tagged %s had been invoked %d times and completed %d times; expected %d (once per selected row) and all completed", ctx, strings.ToUpper(it.Q), it.Tag, calls[it.Tag], done[it.Tag], n)
+				res.Violation = fmt.Sprintf("%s\n  when Exec returned, the %s call tagged %s had been invoked %d times and completed %d times; expected %d (once per selected row) and all completed; arguments seen: %s", ctx, strings.ToUpper(it.Q), it.Tag, calls[it.Tag], done[it.Tag], n, val.JSON(argsSeen[it.Tag]))
 				return res
 			}
 		case "once":
@@ -332,8 +329,7 @@ func checkC14(c *C14Case) Result {
 		}
 	}
 	// metamorphic: the same query with the qualifiers of value-bearing calls removed
-	injEpoch.Add(1)
-	injReset(0, 0)
+	injNewRun(nil)
 	sqlU := c.sql(false)
 	plain := Run(c.doc(), sqlU, Opts{})
 	res.Execs++
